@@ -103,8 +103,9 @@ def c02(tier, seed):
     stages = [disp_stage('c02_' + t)]
     if tier != 'quick':
         stages += [randomized(x, seed) for x in stages]
+    stages.append(twins_stage(t))
     return dict(stages=stages,
-                rule='all single requests and all batches of length 1..2 over 6 element kinds x 8 id typings (48 elements), '
+                rule='(plus: look-alike methods on one dispatcher in every call order - each call runs its own method with its own arguments) all single requests and all batches of length 1..2 over 6 element kinds x 8 id typings (48 elements), '
                      'length 3%s over reduced alphabets, x max_batch_size at and around the length x 3 dispatcher flavours; '
                      'non-trivial = at least one method executed' % ('' if tier == 'quick' else ' and 4'),
                 assumptions=ASSUME_DISP, exhaustive=True)
@@ -140,8 +141,9 @@ def c04(tier, seed):
         stages=[Stage('binding', mc=('BindingMC', 'Binding_%s.cfg' % t), emit=('BindingMC', 'Binding_%s_emit.cfg' % t),
                       driver='binding', trace=('BindingTrace', 'BindingTrace.cfg'),
                       deviations={'KwRebind': 'BindingTrace_dev_KwRebind.cfg'}, sanity_events=('Direct',),
-                      nontrivial=lambda tr: any(e['ev'] == 'Exec' for e in tr['ev']))],
-        rule='all grammatical Python signatures of <= %d parameters over positional-only / positional-or-keyword / '
+                      nontrivial=lambda tr: any(e['ev'] == 'Exec' for e in tr['ev'])), twins_stage(t)],
+        rule='(plus: look-alike methods, one function under two context designations, parameterless calls and re-created functions on one '
+             'dispatcher in every call order) all grammatical Python signatures of <= %d parameters over positional-only / positional-or-keyword / '
              '*args / keyword-only / **kwargs x defaults x context designation (none, by name at each admissible '
              'position, first positional, view constructor) x function / coroutine / view method x positional lists of '
              'length 0..%d and named mappings over every subset of the parameter names plus an unknown name; '
@@ -408,6 +410,7 @@ def twins_stage(t):
     """look-alike validated methods (same function name, qualified name and parameter names, different annotations / schemas)
     served by one dispatcher in every call order: each call's outcome depends on the call alone"""
     return Stage('twins', emit=('HistoryMC', 'Twins_%s_emit.cfg' % t), driver='twins', trace=('TwinsTrace', 'TwinsTrace.cfg'),
+                 extra_emits=[] if t == 'quick' else [('HistoryMC', 'Twins_thorough8_emit.cfg', {})],
                  nontrivial=lambda tr: len(tr['ev']) >= 2)
 
 
@@ -474,8 +477,8 @@ def c17(tier, seed):
         stages=[Stage('docparams', mc=('BindingMC', 'BindingDoc_%s.cfg' % t), emit=('BindingMC', 'BindingDoc_%s_emit.cfg' % t),
                       driver='binding', trace=('BindingTrace', 'BindingTrace.cfg'),
                       deviations={'ViewSelfDocumented': 'BindingTrace_dev_ViewSelfDocumented.cfg'}, sanity_events=('Direct',),
-                      nontrivial=lambda tr: sum(1 for e in tr['ev'] if e['ev'] == 'Doc') == 2 and any(e['ev'] == 'Exec' for e in tr['ev']))],
-        rule='all signatures of <= %d parameters over positional-or-keyword / keyword-only kinds x defaults x context parameter (by '
+                      nontrivial=lambda tr: sum(1 for e in tr['ev'] if e['ev'] == 'Doc') == 2 and any(e['ev'] == 'Exec' for e in tr['ev'])), twins_stage(t)],
+        rule='(plus: look-alike methods on one dispatcher in every call order - what binds does not depend on earlier requests) all signatures of <= %d parameters over positional-or-keyword / keyword-only kinds x defaults x context parameter (by '
              'name at each position, first positional, view constructor) or a defaulted parameter removed by the exclusion '
              'predicate x function / coroutine / view method x direct / merged registration: for each the real OpenAPI request '
              'schema and OpenRPC params list are generated (pydantic extractor) and projected to (names, required); then ALL params '
